@@ -294,7 +294,7 @@ Section NPRun.
         - destruct Hmi as (A & _). apply (proj2 A) in Hd. apply has_rec_find in Hd. congruence. }
       pose proof (Hclean cl eq_refl Hd) as Hnil.
       split; [|right; exact Hnil].
-      exists (cl_next cl). apply (cli_ext _ _ cl); try reflexivity. apply cli_fresh; assumption.
+      exists (fun cid => cl_next cl <= cid). apply (cli_ext _ _ cl); try reflexivity. apply cli_fresh; assumption.
     - rewrite al_get_insert_other in Hc' by exact Hne.
       destruct (mode_connect script slot0 max slot Hs) as [Em _]. rewrite Em in Hm. replace (slot0 =? slot) with false in Hm by lia.
       refine (np_conn_keep _ _ _ _ _ _ _ _ (Hinv slot c' Hc' Hm Hconn) (N.le_refl _) _ (fun t _ H => H) eq_refl eq_refl eq_refl eq_refl).
